@@ -1,0 +1,15 @@
+//go:build verif
+
+// Contracts for package channel, read by /verif/govc (contract-based deductive verification).
+// This file contains comments only; it adds no code to any build.
+
+package channel
+
+// sent: ghost history of the inputs handed to SendInput (one entry per exchange), in order.
+//@ ghost sent []string
+
+//@ func (*Channel).SendInput
+//@   noverify
+//@   modifies sent
+//@   ensures sent == old(sent) ++ strs(input)
+//@   ensures result.1 != nil ==> len(result.0) == 0
